@@ -100,7 +100,7 @@ def check_C09(ctx, rep):
         b = f.get(ident)
         if b is None:
             rep.fail("R23", ident, "anchor-lost:" + ident, "%s not found (reason=anchor-lost)" % ident); continue
-        tr = H.tree_of(f, b, "none")
+        tr = H.tree_of(f, b, "none", inline_private=True)
         exp = SOME(call("<TwoFloat as core::convert::From<%s>>::from" % t, a))
         n23 += 1
         rep.check(tr[0] == "leaf" and tr[1] is exp, "R23", "FromPrimitive::from_%s" % t, "delegation:from_" + t, "from_%s is not Some(TwoFloat::from(n)): %s" % (t, vg.show(tr)[:200]), where=H.where(b), nontrivial=False)
@@ -108,7 +108,7 @@ def check_C09(ctx, rep):
         b = f.get(ident)
         if b is None:
             rep.fail("R23", ident, "anchor-lost:" + ident, "%s not found (reason=anchor-lost)" % ident); continue
-        tr = H.tree_of(f, b, "none")
+        tr = H.tree_of(f, b, "none", inline_private=True)
         exp = call("core::result::Result::<T, E>::ok<%s,TwoFloatError>" % t, call("<%s as core::convert::TryFrom<&TwoFloat>>::try_from" % t, a))
         # the by-value twin has the identical body (R21/R22 check both twins against the same reference)
         exp2 = call("core::result::Result::<T, E>::ok<%s,TwoFloatError>" % t, call("<%s as core::convert::TryFrom<TwoFloat>>::try_from" % t, a))
